@@ -174,7 +174,7 @@ func (w *World) captureFlush(st *storeState, header []byte) {
 		w.Captured = append(w.Captured, &Image{
 			Sel: sel, Idx: r.idx, Files: files, StmtIdx: w.stmtIdx, InStmt: w.inStmt,
 			Info: map[string]string{
-				"site": "flush", "trigger": w.flushTrigger(), "class": class,
+				"site": "flush", "trigger": w.flushTrigger(), "subset": class,
 				"nW": fmt.Sprint(len(W)), "nNew": fmt.Sprint(nNew), "hdr_changed": hdrChanged,
 			},
 		})
